@@ -3,8 +3,11 @@ package main
 import (
 	"bytes"
 	"context"
+	"fmt"
 	"io"
 	"math/rand"
+	"net/http"
+	"strings"
 	"sync"
 	"time"
 
@@ -20,6 +23,42 @@ func init() {
 	scenarios["c08.reuse"] = scC08Reuse
 	scenarios["c18.backlog"] = scC18Backlog
 	scenarios["c18.closeblocked"] = scC18CloseBlocked
+	scenarios["c06.batch"] = scC06Batch
+}
+
+// c06.batch: one HTTP request carrying a batch of calls; nobody cancels anything and the request is not aborted, so none of the
+// handlers (they stay active for a moment and report a cancellation they observe) may see its context cancelled.
+func scC06Batch(w *World, a Args, rng *rand.Rand) error {
+	n := a.Int("n", 3)
+	var parts []string
+	for i := 1; i <= n; i++ {
+		w.Plan(i, &Plan{Gated: true})
+		parts = append(parts, fmt.Sprintf(`{"jsonrpc":"2.0","id":%d,"method":"H.Unary","params":[%d]}`, i, i))
+		w.Rec.Emit("CallStart", "call", i, "cli", "raw", "kind", "unary", "transport", "httpbatch")
+		w.markStart(i)
+	}
+	go func() { // the elements are handled one after the other: release each a little after it has started
+		for i := 1; i <= n; i++ {
+			w.WaitRunning(i, 2*time.Second)
+			time.Sleep(10 * time.Millisecond)
+			w.Release(i)
+		}
+	}()
+	resp, err := http.Post("http://"+w.TS.Listener.Addr().String(), "application/json", strings.NewReader("["+strings.Join(parts, ",")+"]"))
+	if err == nil {
+		io.Copy(io.Discard, resp.Body)
+		resp.Body.Close()
+	}
+	for i := 1; i <= n; i++ {
+		w.markEnd(i)
+		out := "ok"
+		if err != nil {
+			out = "other"
+		}
+		w.Rec.Emit("CallEnd", "call", i, "outcome", out, "token", i, "detail", "")
+	}
+	w.Quiesce(nil, 0, 2*time.Second)
+	return nil
 }
 
 // c18.closeblocked: the client is closed while one of its handler goroutines has been holding the connection's writer for more
